@@ -8,6 +8,7 @@ import (
 	"net"
 	"os"
 	"strconv"
+	"strings"
 	"sync"
 	"sync/atomic"
 	"time"
@@ -33,7 +34,7 @@ var errNoMethod = errors.New("method 'da.GetIDs' not found")
 var errNames = []string{"notfound", "toobig", "timedout", "mempool", "seq", "deadline", "future", "futurestr",
 	"canceled", "ctxcanceled", "ctxdeadline", "generic", "lagging", "nomethod"}
 
-var wrapNames = []string{"", "pre", "post", "join", "deep", "cause-deadline", "join-deadline"}
+var wrapNames = []string{"", "pre", "post", "join", "deep", "cause-deadline", "join-deadline", "long-pre"}
 
 func baseErr(name string) error {
 	switch name {
@@ -74,6 +75,9 @@ func mkErr(name, wrap string) error {
 	switch wrap {
 	case "pre":
 		return fmt.Errorf("da backend rejected the request: %w", e)
+	case "long-pre":
+		// a backend that echoes the offending request in front of the cause (hundreds of bytes)
+		return fmt.Errorf("broadcast of tx %s refused by the backend: %w", strings.Repeat("deadbeef", 60), e)
 	case "post":
 		return fmt.Errorf("%w: requested 7, current 3", e)
 	case "join":
